@@ -417,10 +417,10 @@ func builtinPrograms() []*Program {
 		MessageType: []*descriptorpb.DescriptorProto{{Name: proto.String("Thing"), Field: []*descriptorpb.FieldDescriptorProto{st("hundred", 1)}}},
 		EnumType:    []*descriptorpb.EnumDescriptorProto{enumOf("Level", "LEVEL")},
 	}
+	_ = thing100 // (a dependency foo.v100 next to local foo.v1 is a different, also legal, shape; not used here)
 	out = append(out, &Program{
 		Name:     "builtin/prefix_clash",
 		Packages: []string{"foo.v1", "foo.v10", "use.v2"},
-		Deps:     []*descriptorpb.FileDescriptorProto{thing100},
 		Files: map[string]string{
 			"foo/v1/thing.j5s":  j5s("package foo.v1", "", "object Thing {", "  field one string", "}", "", "enum Level {", "  option LOW", "  option HIGH", "}"),
 			"foo/v10/thing.j5s": j5s("package foo.v10", "", "object Thing {", "  field ten string", "  field more integer:INT64", "}", "", "enum Level {", "  option A", "  option B", "  option C", "}"),
@@ -431,18 +431,54 @@ func builtinPrograms() []*Program {
 				"package use.v2",
 				"import foo.v1",
 				"import foo.v10",
-				"import foo.v100",
 				"",
 				"object User {",
 				"  field one object:foo.v1.Thing",
 				"  field ten object:foo.v10.Thing",
-				"  field hundred object:foo.v100.Thing",
 				"  field extra object:foo.v10.Extra",
 				"  field l1 enum:foo.v1.Level",
 				"  field l10 enum:foo.v10.Level",
-				"  field l100 enum:foo.v100.Level",
 				"}",
 			),
+		},
+	})
+
+	// 8. source file names that share their first dot-separated part, each producing service and
+	// topic sub-package files; a second package referring to both.
+	svc := func(name, key string) []string {
+		return []string{
+			"topic " + name + "Events publish {",
+			"  message " + name + "Happened {",
+			"    field subject object:" + name,
+			"  }",
+			"}",
+			"",
+			"service " + name + " {",
+			"  basePath = \"/shop/v1/" + strings.ToLower(name) + "\"",
+			"",
+			"  method Get" + name + " {",
+			"    httpMethod = \"GET\"",
+			"    httpPath = \"/:" + key + "\"",
+			"",
+			"    request {",
+			"      field " + key + " key:uuid",
+			"    }",
+			"",
+			"    response {",
+			"      field result object:" + name,
+			"    }",
+			"  }",
+			"}",
+		}
+	}
+	out = append(out, &Program{
+		Name:     "builtin/dotted_names",
+		Packages: []string{"billing.v1", "shop.v1"},
+		Files: map[string]string{
+			"shop/v1/order.j5s": j5s(append([]string{"package shop.v1", "", "object Order {", "  | An order placed by a customer.", "", "  field orderId key:uuid", "  field customer object:Customer", "}", ""}, svc("Order", "orderId")...)...),
+			"shop/v1/order.refund.j5s": j5s(append([]string{"package shop.v1", "", "object Refund {", "  | Money going back.", "", "  field refundId key:uuid", "  field order object:Order", "}", ""}, svc("Refund", "refundId")...)...),
+			"shop/v1/customer.j5s": j5s("package shop.v1", "", "object Customer {", "  field name string", "}"),
+			"billing/v1/invoice.j5s": j5s("package billing.v1", "import shop.v1", "", "object Invoice {", "  field order object:shop.v1.Order", "  field refund object:shop.v1.Refund", "}"),
 		},
 	})
 	return out
